@@ -22,8 +22,7 @@ package zkelog
 
 //@ func (*Proof).Verify
 //@   nopanic[C05]
-//@   modifies nothing
-//@   allocates
+//@   modifies hstate(hash)
 //@   requires hash != nil && hash.h != nil && public.E != nil && public.E.L != nil && public.E.M != nil && public.ElGamalPublic != nil && public.Base != nil && public.Y != nil && (p != nil ==> shaped(p))
 
 //@ func challenge
